@@ -16,13 +16,14 @@ L = env.lib()
 
 ID = "C17"
 LEVEL = "exploration"
-RULE = ("Hypothesis-generated (key, token list): keys are (a) fresh keygen() pairs on fresh paths and (b) seeded 2048-bit keys built from a drawn seed (deterministic Miller-Rabin prime search, "
+RULE = ("Hypothesis-generated (key, token list): keys are (a) fresh keygen() pairs on fresh paths or written over the previous pair at one reused path, and (b) seeded 2048-bit keys built from a drawn seed (deterministic Miller-Rabin prime search, "
         "PKCS#8 PEM written to disk, write_public_keyfile), also with public exponent 3 and 65537; tokens: all-zero, all-0xFF, drawn 20-byte strings. Oracle: .pub == base64(524-byte blob) + ' user@host'; "
         "blob: 64 words, n*n0inv == -1 mod 2^32, little-endian modulus == n, rr == 2^4096 mod n, exponent == e (all recomputed with Python integers); for each of the three signer classes loaded from the "
         "files, Sign(token) == the unique RSASSA-PKCS1-v1_5 signature of the token taken as a SHA-1 digest (pow(EM,d,n), own EMSA encoding) and cryptography's verify(..., Prehashed(SHA1)) accepts it. "
         "Non-trivial: every (key, token) with a drawn token. Distinct = (key fingerprint, token).")
 ASSUMPTIONS = ["Python integer arithmetic and cryptography's verifier are the trusted base", "keygen() uses OpenSSL randomness (not seedable): a failing key's PEM is stored in the replay file"]
 
+_REUSED = []
 SMALL_PRIMES = [p for p in range(3, 2000, 2) if all(p % q for q in range(3, int(p ** 0.5) + 1, 2))]
 
 
@@ -90,6 +91,7 @@ def cases():
         "seed": st.integers(0, 2 ** 40),
         "e": st.sampled_from([65537, 65537, 3, 17]),
         "tokens": st.lists(tok, min_size=6, max_size=20),
+        "reuse_path": st.booleans(),      # write the key pair over the previous pair at one fixed path ("existing files will be overwritten")
     })
 
 
@@ -104,6 +106,12 @@ def check_case(case):
     info = {"classes": [case["kind"]]}
     try:
         path = os.path.join(d, "adbkey")
+        if case.get("reuse_path"):
+            base = _REUSED[0] if _REUSED else d           # run() creates (and removes) the shared base directory
+            rd = os.path.join(base, "pid-%d" % os.getpid())
+            os.makedirs(rd, exist_ok=True)
+            path = os.path.join(rd, "adbkey")
+            info["classes"].append("path-reused")
         if case.get("pem"):
             with open(path, "wb") as f:
                 f.write(case["pem"])
@@ -201,7 +209,11 @@ def run(tier, seed):
             case.update(pem=v.case_override["pem"])
         return v, info
 
-    col = harness.corpus_part(ID, "keys", check_case)
-    col.merge(harness.hypothesis_part("keys", cases(), fn, 160 if quick else 3200, seed, shrink=False,
-                                      hash_of=None))
+    _REUSED.append(tempfile.mkdtemp(prefix="advf-c17-reused-"))
+    try:
+        col = harness.corpus_part(ID, "keys", check_case)
+        col.merge(harness.hypothesis_part("keys", cases(), fn, 160 if quick else 3200, seed, shrink=False,
+                                          hash_of=None))
+    finally:
+        shutil.rmtree(_REUSED.pop(), ignore_errors=True)
     return harness.finish(ID, tier, seed, LEVEL, col, RULE, ASSUMPTIONS, t0, extra={"note": "evaluations counts (key, token-list) cases; each case signs every token with all three signers"})
